@@ -20,6 +20,8 @@ type baseHandler struct {
 	commands     chan string
 	receiveBuf   bytes.Buffer
 	status       int
+	// Rest of a command which did not fit into the reader's buffer yet.
+	pendingCommand []byte
 }
 
 func (h *baseHandler) String() string {
@@ -78,12 +80,16 @@ func (h *baseHandler) Write(p []byte) (n int, err error) {
 
 // Send data to the dtail server via Reader interface.
 func (h *baseHandler) Read(p []byte) (n int, err error) {
-	select {
-	case command := <-h.commands:
-		n = copy(p, []byte(command))
-	case <-h.Done():
-		return 0, io.EOF
+	if len(h.pendingCommand) == 0 {
+		select {
+		case command := <-h.commands:
+			h.pendingCommand = []byte(command)
+		case <-h.Done():
+			return 0, io.EOF
+		}
 	}
+	n = copy(p, h.pendingCommand)
+	h.pendingCommand = h.pendingCommand[n:]
 	return
 }
 
